@@ -318,6 +318,38 @@ theorem keysafe_unknown_locator_refused (c : Vmx.Crypto) (fuel : Nat) (s : Bytes
   have e5 : Vmx.identPhrase = Vmx.asc "phrase" := by decide
   exact keysafe_locator_unknown c fuel s (by rw [e2, e3]; exact h1) (by rw [e2, e4]; exact h2) (by rw [e2, e5]; exact h3)
 
+/-- a `list` that mixes supported members with one of an unknown kind is refused as a whole: the list branch parses every
+    member and has no way to skip one (whatever the position of the member and whatever the other members are) -/
+theorem keysafe_mixed_list_refused (c : Vmx.Crypto) (fuel : Nat) (s : Bytes) (ms : List Bytes) (m : Bytes)
+    (hl : (Vmx.partition 47 s).1 = Vmx.asc "list") (hs : Vmx.splitList (Vmx.partition 47 s).2 = .ok ms) (hm : m ∈ ms)
+    (h1 : (Vmx.partition 47 m).1 ≠ Vmx.asc "list") (h2 : (Vmx.partition 47 m).1 ≠ Vmx.asc "pair")
+    (h3 : (Vmx.partition 47 m).1 ≠ Vmx.asc "phrase") : ∀ l, Vmx.parseLocator c (fuel + 1) s ≠ .ok l := by
+  intro l h
+  have e2 : Vmx.sepLoc = 47 := by decide
+  have e3 : Vmx.identList = Vmx.asc "list" := by decide
+  obtain ⟨ms', hs', hall⟩ := keysafe_list_members_ok c fuel s l (by rw [e2, e3]; exact hl) h
+  rw [e2, hs] at hs'
+  cases hs'
+  obtain ⟨lm, hlm⟩ := hall m hm
+  cases fuel with
+  | zero => unfold Vmx.parseLocator at hlm; cases hlm
+  | succ f => rw [keysafe_unknown_locator_refused c f m h1 h2 h3] at hlm; cases hlm
+
+/-- … and so is the key safe: `KeySafe.from_text` of `vmware:key/list/(…)` with such a member raises -/
+theorem keysafe_mixed_safe_refused (c : Vmx.Crypto) (text : Bytes) (ms : List Bytes) (m : Bytes)
+    (hl : (Vmx.partition 47 (Vmx.partition 47 text).2).1 = Vmx.asc "list")
+    (hs : Vmx.splitList (Vmx.partition 47 (Vmx.partition 47 text).2).2 = .ok ms) (hm : m ∈ ms)
+    (h1 : (Vmx.partition 47 m).1 ≠ Vmx.asc "list") (h2 : (Vmx.partition 47 m).1 ≠ Vmx.asc "pair")
+    (h3 : (Vmx.partition 47 m).1 ≠ Vmx.asc "phrase") : ∀ locs, Vmx.fromText c text ≠ .ok locs := by
+  intro locs h
+  unfold Vmx.fromText at h
+  split at h
+  · cases h
+  · obtain ⟨l, hp, _⟩ := bind_ok h
+    have e1 : Vmx.sepSafe = 47 := by decide
+    rw [e1] at hp
+    exact keysafe_mixed_list_refused c _ _ ms m hl hs hm h1 h2 h3 l hp
+
 /-- cipher / MAC / KDF names are table lookups: a pair that unlocks named a KDF in `PASS2KEY_MAP`, a cipher in
     `CIPHER_KEY_SIZES` and a MAC in `HMAC_MAP` -/
 theorem vmx_cipher_mac_kdf_tables_gate (c : Vmx.Crypto) (p : Vmx.Phrase) (mac data pw k : Bytes)
